@@ -14,14 +14,15 @@ LEVEL = "exploration"
 RULE = (
     "Hypothesis generates finite define-by-run programs: a tree whose inner nodes are "
     "suggestions (stepped floats incl. steps that are not short binary fractions, ints with "
-    "step, categoricals, single-value domains; every name keeps one distribution), whose "
+    "step, categoricals, single-value domains; a numeric name may come with another range on "
+    "another path, as in the sampler's docstring example b = suggest_int('b', a, 3)), whose "
     "children may be one shared sub-program or differ per value (branches of different depth "
     "and parameter order), and whose leaves complete, fail (raise, caught) or prune as a "
     "function of the path; up to 60 leaves; sampler seed and avoid_premature_stop generated; "
     "the run is split into optimize(n_trials=k) pieces at generated points and may be "
     "interrupted by an uncaught exception and resumed; backends in-memory, SQLite, journal "
     "file, gRPC over in-memory. Grid sampler: generated grids (1-4 names, 1-4 values each, "
-    "ints/floats/str/bool/None) with matching suggest calls, same splits/failures. Oracle: the "
+    "ints/floats/str/bool/None, and numeric choices with NaN among them) with matching suggest calls, same splits/failures. Oracle: the "
     "multiset of parameter dicts of all trials equals the set of leaf paths (grid cells), each "
     "exactly once, every trial is finished, and the last optimize() without n_trials returned "
     "by itself (a cap of leaves+5 trials being hit is the violation 'did not stop'). "
